@@ -358,7 +358,9 @@ def judge(env, buf, size):
         last_off = off              # the last instruction that was in order (where a stuck sweep sits)
         off += ln
     if status == "budget":
-        v.append(("arbitrary:nontermination:%s" % classify_at(buf, last_off),
+        stuck = _safe(got[-1].get_raw) if got else None      # what the sweep kept yielding when it was cut
+        v.append(("arbitrary:nontermination:%s" % (classify_at(bytes(stuck), 0) if isinstance(stuck, (bytes, bytearray))
+                                                   else classify_at(buf, last_off)),
                   "%s: sweep exceeded the budget of %d events" % (hx, BUDGET0 + BUDGET1 * n)))
     elif status == "exc" and not isinstance(val, env.Invalid):
         v.append(("arbitrary:exception:%s" % classify_at(buf, off),
